@@ -259,6 +259,26 @@ func (s *State) clone() *State {
 
 func (x *Exec) memOf(st *State, leaf string) *Term { return x.memByKey(st, leaf) }
 
+// mapTag: maps of different Go types are different objects. The presence and
+// value memories are shared between map types with the same key (and value)
+// sorts, so this fact is what keeps e.g. a map[K]struct{} apart from a map[K]*T.
+func (x *Exec) mapTag(m *Term, mt *types.Map) {
+	if m.open {
+		return
+	}
+	c := x.c
+	k := types.TypeString(mt, nil)
+	if x.mapTags == nil {
+		x.mapTags = map[string]int64{}
+	}
+	id, ok := x.mapTags[k]
+	if !ok {
+		id = int64(len(x.mapTags) + 1)
+		x.mapTags[k] = id
+	}
+	x.assumeRaw(c.Implies(c.Neq(m, c.Null()), c.Eq(c.UF("maptag", SInt, m), c.Int(id))))
+}
+
 func (x *Exec) mapPresent(st *State, ks string) *Term { return x.memByKey(st, "mapP|"+ks) }
 func (x *Exec) mapVals(st *State, ks, vs string) *Term {
 	return x.memByKey(st, "mapV|"+ks+"|"+vs)
